@@ -75,7 +75,46 @@ class Nest:
 
     def recreated_per_iteration(self, inner, outer):
         """The inner loop's iterator is built inside the outer loop's body (a fresh pass per outer item)."""
-        return inner['iter_def_bb'] is not None and inner['iter_def_bb'] in outer['loop']['body']
+        if not (inner['iter_def_bb'] is not None and inner['iter_def_bb'] in outer['loop']['body']):
+            return False
+        return self._shared_iterator(inner, outer) is None
+
+    def _shared_iterator(self, inner, outer):
+        """The local of a partly consumed iterator the inner loop draws from, if any: walking the inner iterator's construction
+        backwards through adaptors (`skip`, `take`, `into_iter`, `by_ref`, ...) and borrows, a mutable borrow of an ITERATOR
+        (not a collection) all of whose definitions lie outside the outer loop means every outer item continues where the
+        previous one stopped (`others.by_ref().skip(i + 1)` with `others` built before the loop)."""
+        b, defs = self.b, self.tr.defs
+        body = outer['loop']['body']
+
+        def iterator_ty(ty):
+            ty = (ty or '').replace('&mut ', '').replace('&', '').strip()
+            return ty.startswith(('std::iter::', 'core::iter::', 'impl ')) or '::Iter<' in ty.split('<', 1)[0] + '<' or \
+                ty.startswith(('std::slice::Iter', 'std::vec::IntoIter', 'std::vec::Drain', 'std::ops::Range'))
+
+        seen, work = set(), [(inner.get('iter_local'), False)]
+        while work:
+            l, via_mut = work.pop()
+            if l is None or (l, via_mut) in seen or len(seen) > 40:
+                continue
+            seen.add((l, via_mut))
+            ds = [d for d in defs.of(l) if d[0] in self.cfg.reach]
+            if via_mut and ds and all(d[0] not in body for d in ds) and iterator_ty(b.local_ty(l)):
+                return l
+            for (bi, si, kind, pl) in ds:
+                if kind == 'call':
+                    a = pl.get('args') or []
+                    if a and 'l' in a[0] and self.f.body_of_fnconst(pl['func']) is None:
+                        # an adaptor of the standard library: what it is built from is its receiver
+                        work.append((a[0]['l'], via_mut or (b.local_ty(a[0]['l']) or '').startswith('&mut ')))
+                elif kind == 'assign':
+                    rv = pl
+                    if rv['r'] == 'use' and 'l' in rv['a']:
+                        work.append((rv['a']['l'], via_mut))
+                    elif rv['r'] == 'ref' and 'l' in rv.get('a', rv.get('place', {})):
+                        pla = rv.get('a', rv.get('place'))
+                        work.append((pla['l'], via_mut or rv.get('mut') in (True, 'mut', 'Mut')))
+        return None
 
     # ------------------------------------------------------------------------------------------------------
     def _guided_model(self, enclosing):
